@@ -152,6 +152,13 @@ Protocol ==
      \* a Go map with int keys: the key name is bound to the KEY (an int: it can be computed with, compared, used as an index again)
      [n |-> "int_keyed_map", data |-> [xs |-> [t |-> "imap", m |-> [one |-> I(7)]]], want |-> <<"2", ":", "7", ";", "t", "r", "u", "e", ";", "7">>,
       prog |-> <<Emit(For("k", "v", Id("xs"), <<Emit(Bin("+", Id("k"), IntL(1))), Text(<<":">>), Emit(Id("v")), Text(<<";">>), Emit(Bin(">", Id("k"), IntL(0))), Text(<<";">>), Emit(Idx(Id("xs"), Id("k")))>>))>>],
+     \* the blank identifier as the second name: the first one is still the key / the index
+     [n |-> "blank_value_name", data |-> [xs |-> M([a |-> I(11)])], want |-> <<"[", "a", "]", "|", "[", "0", "]", "[", "1", "]">>,
+      prog |-> <<Emit(For("k", "_", Id("xs"), <<Text(<<"[">>), Emit(Id("k")), Text(<<"]">>)>>)), Text(<<"|">>),
+                 Emit(For("i", "_", Arr(<<Str(<<"p">>), Str(<<"q">>)>>), <<Text(<<"[">>), Emit(Id("i")), Text(<<"]">>)>>))>>],
+     \* a Go slice whose element type is a defined type: the loop variable is an element, with its type (trusted HTML stays trusted)
+     [n |-> "typed_elements", data |-> [xs |-> AT(<<H(<<"LT", "b", "GT">>), H(<<"LT", "i", "GT">>)>>, "htmls")], want |-> <<"LT", "b", "GT", "|", "LT", "i", "GT", "|">>,
+      prog |-> <<Emit(For("", "v", Id("xs"), <<Emit(Id("v")), Text(<<"|">>)>>))>>],
      [n |-> "continue_takes_next", data |-> EmptyScope, want |-> <<"1", "3", "|">>,
       prog |-> <<Let("r", Call("until", <<IntL(4)>>)), Emit(For("", "v", Id("r"), <<Code(If(Bin("==", Id("v"), IntL(0)), <<Code(Cnt)>>)), Code(If(Bin("==", Id("v"), IntL(2)), <<Code(Cnt)>>)), Emit(Id("v"))>>)), Text(<<"|">>),
                  Emit(For("", "v", Id("r"), <<Emit(Id("v"))>>))>>] >>
